@@ -255,6 +255,15 @@ def check_single(kw):
     try:
         if Resources.from_dict(r.dict()) != r:
             out.append(({"kind": "roundtrip", "op": "from_dict"}, f"from_dict(dict()) != r for {kw}"))
+        # from_dict leaves ITS operand (the caller's dict) unchanged: the same dict gives the same Resources again
+        import copy as _copy
+        d = r.dict()
+        d0 = _copy.deepcopy(d)
+        a = Resources.from_dict(d)
+        if d != d0:
+            out.append(({"kind": "operand-mutated", "op": "from_dict"}, f"from_dict changed the dict it was given: {d0} -> {d}"))
+        elif Resources.from_dict(d) != a:
+            out.append(({"kind": "roundtrip", "op": "from_dict", "second_call": True}, f"from_dict of the same dict twice gives different Resources for {kw}"))
     except Exception as e:  # noqa: BLE001
         out.append(({"kind": "exception", "op": "from_dict", "exc": type(e).__name__}, f"from_dict(dict()) raised for {kw}: {e!r}"))
     toks = r.to_slurm_options().split()
